@@ -9,7 +9,7 @@ import re
 
 from vlib import txt
 
-START = re.compile(r'<(\w+)((?:[ \t]+\w+="[^"<>\n]+")*)(/?)>')
+START = re.compile(r'<(\w+)((?:[ \t]+\w+="[^"<>\n]+")*)([ \t]*)(/?)>')
 ATTR = re.compile(r'([ \t]+)(\w+)="([^"]*)"')
 
 
@@ -27,16 +27,18 @@ def _elem(s: str, i: int):
     m = START.match(s, i)
     if not m:
         raise NotPlain(f"no plain start tag at {i}: {s[i:i + 40]!r}")
-    name, attrtext, selfclose = m.group(1), m.group(2), m.group(3)
+    name, attrtext, tail, selfclose = m.group(1), m.group(2), m.group(3), m.group(4)
     attrs = [(a.group(1), a.group(2), a.group(3)) for a in ATTR.finditer(attrtext)]
     if "".join(f'{a}{b}="{c}"' for a, b, c in attrs) != attrtext:
         raise NotPlain("attribute text")
+    if tail and not attrs:
+        raise NotPlain("blanks in a start tag without attributes")
     j = m.end()
     if selfclose:
         if not attrs:
             raise NotPlain("self-closing element without attributes")
         k = _ws_end(s, j)
-        return ("E", name, attrs, s[j:k]), k
+        return ("E", name, (attrs, tail), s[j:k]), k
     k = _ws_end(s, j)
     close = f"</{name}>"
     if s.startswith("<", k) and not s.startswith("</", k):
@@ -48,7 +50,7 @@ def _elem(s: str, i: int):
             kids.append(c)
         e = k + len(close)
         k2 = _ws_end(s, e)
-        return ("N", name, attrs, pre, kids, s[e:k2]), k2
+        return ("N", name, (attrs, tail), pre, kids, s[e:k2]), k2
     e = s.find(close, j)
     if e < 0:
         raise NotPlain(f"no end tag for <{name}>")
@@ -60,7 +62,7 @@ def _elem(s: str, i: int):
     rpad = raw[len(lpad) + len(content):]
     e2 = e + len(close)
     k2 = _ws_end(s, e2)
-    return ("L", name, attrs, lpad, content, rpad, s[e2:k2]), k2
+    return ("L", name, (attrs, tail), lpad, content, rpad, s[e2:k2]), k2
 
 
 def to_tree(doc: str):
@@ -74,8 +76,9 @@ def to_tree(doc: str):
     return doc[:i], t
 
 
-def _attrs(a) -> str:
-    return "[" + ";".join(f"({txt(s)}, {txt(k)}, {txt(v)})" for s, k, v in a) + "]"
+def _attrs(at) -> str:
+    a, tail = at
+    return "[" + ";".join(f"({txt(s)}, {txt(k)}, {txt(v)})" for s, k, v in a) + "] " + txt(tail)
 
 
 def coq_tree(t) -> str:
@@ -88,7 +91,7 @@ def coq_tree(t) -> str:
 
 def ser(t) -> str:
     """reference serialisation (must give the document back)"""
-    a = "".join(f'{s}{k}="{v}"' for s, k, v in t[2])
+    a = "".join(f'{s}{k}="{v}"' for s, k, v in t[2][0]) + t[2][1]
     if t[0] == "L":
         return f"<{t[1]}{a}>{t[3]}{t[4]}{t[5]}</{t[1]}>{t[6]}"
     if t[0] == "E":
